@@ -3,9 +3,80 @@ package main
 // replay.go: bounded counterexample search and replay on the real code.
 
 import (
+	"encoding/json"
 	"fmt"
 	"os"
+	"os/exec"
+	"path/filepath"
+	"regexp"
+	"strings"
+	"time"
 )
+
+// ---- bounded stand-ins: functions the contract verifier cannot reach are exercised on the real code
+// by an in-package test injected with `go test -overlay` (nothing is written into the repository).
+// They are labelled bounded everywhere and are never counted among the proved obligations. ----
+
+type standinResult struct {
+	Name   string  `json:"name"`
+	Bound  string  `json:"bound"`
+	Dir    string  `json:"package_dir"`
+	Status string  `json:"status"` // held, failed, error
+	TimeS  float64 `json:"time_s"`
+	Output string  `json:"output,omitempty"`
+	File   string  `json:"test_file"`
+}
+
+var standinHdr = regexp.MustCompile(`(?m)^// (dir|run|bound): *(.*)$`)
+
+func runStandins(o *checkOpts) []standinResult {
+	var out []standinResult
+	dirs, _ := filepath.Glob(filepath.Join(verifDir, "standins", o.prop, "*", "test.go"))
+	for _, tf := range dirs {
+		data, err := os.ReadFile(tf)
+		if err != nil {
+			continue
+		}
+		hdr := map[string]string{}
+		for _, m := range standinHdr.FindAllStringSubmatch(string(data), -1) {
+			hdr[m[1]] = strings.TrimSpace(m[2])
+		}
+		r := standinResult{Name: filepath.Base(filepath.Dir(tf)), Bound: hdr["bound"], Dir: hdr["dir"], File: tf}
+		if hdr["dir"] == "" || hdr["run"] == "" {
+			r.Status, r.Output = "error", "stand-in test lacks its // dir: or // run: header"
+			out = append(out, r)
+			continue
+		}
+		tmp, err := os.MkdirTemp("", "gvc-standin-")
+		if err != nil {
+			r.Status, r.Output = "error", err.Error()
+			out = append(out, r)
+			continue
+		}
+		ov := map[string]map[string]string{"Replace": {filepath.Join(o.repo, hdr["dir"], "zz_verif_standin_test.go"): tf}}
+		ovData, _ := json.Marshal(ov)
+		ovFile := filepath.Join(tmp, "overlay.json")
+		os.WriteFile(ovFile, ovData, 0o644)
+		start := time.Now()
+		cmd := exec.Command("go", "test", "-overlay", ovFile, "-vet=off", "-count=1", "-timeout", "60s", "-run", "^"+hdr["run"]+"$", "./"+hdr["dir"]+"/")
+		cmd.Dir = o.repo
+		cmd.Env = append(os.Environ(), "GOFLAGS=-mod=mod", "GOPROXY=off", "GOSUMDB=off", "GOTOOLCHAIN=local")
+		b, err := cmd.CombinedOutput()
+		r.TimeS = round2(time.Since(start).Seconds())
+		os.RemoveAll(tmp)
+		text := string(b)
+		switch {
+		case err == nil && strings.Contains(text, "ok"):
+			r.Status = "held"
+		case strings.Contains(text, "--- FAIL"):
+			r.Status, r.Output = "failed", truncate(text, 2000)
+		default:
+			r.Status, r.Output = "error", truncate(text, 2000)
+		}
+		out = append(out, r)
+	}
+	return out
+}
 
 func tryReplay(prog *Program, o *checkOpts, ob *Obligation, rep map[string]interface{}) bool {
 	return false
